@@ -72,14 +72,19 @@ impl WorkerTree {
                 for source in resources.collect_work(&input) {
                     let source = normalize_path(source);
 
-                    let relative_path = source.strip_prefix(&input).map_err(|err| {
-                        DarkluaError::custom(format!(
-                            "unable to remove path prefix `{}` from `{}`: {}",
-                            input.display(),
-                            source.display(),
-                            err
-                        ))
-                    })?;
+                    let relative_path = if input == Path::new(".") {
+                        // paths under the current directory are normalized without a prefix
+                        source.as_path()
+                    } else {
+                        source.strip_prefix(&input).map_err(|err| {
+                            DarkluaError::custom(format!(
+                                "unable to remove path prefix `{}` from `{}`: {}",
+                                input.display(),
+                                source.display(),
+                                err
+                            ))
+                        })?
+                    };
 
                     let output_path = Some(output.join(relative_path));
                     self.add_source_if_missing(source, output_path);
